@@ -8,6 +8,12 @@ TEXTS = {
         note="Trusted: the mapping's Index() for locating bins in the non-triviality rule only (accuracy is judged on values), big.Rat arithmetic. Index window of dense/paginated sketches capped at 2^14 bins by memory. Sampling: a violation confined to one specific (alpha, bin) away from edges could be missed.",
         technique="property-based testing (rapid) against an exact sorted-multiset model with exact rational ranks",
     ),
+    'C03': dict(
+        text="Generated-input search with a validity oracle per value: for mappings of all three kinds built from alpha in [1e-6,0.99] or rebuilt from (gamma, arbitrary offset up to +-2^30), ~70 values per mapping concentrated where rounding matters (bin edges +-4 ulps incl. the 10 lowest/highest indexes, binade edges, both range ends, log-uniform fill) are checked for alpha-accuracy of Value(Index(v)), int32 range, containment between consecutive lower bounds and monotonicity over adjacent-float / few-ulp / adjacent-bin / far pairs; the reported accuracy must equal the configured one. Found and drove the repair of finding F7.",
+        design_ref="DESIGN.md §2 C03, §1.1",
+        note="Trusted: math.Log/Exp of the Go runtime within the derived slack. Sampling concentrated on the measure-zero set of edges; a violation at one specific interior value of one specific mapping would be found only by luck.",
+        technique="property-based testing (rapid) with analytic validity predicates (accuracy, containment, monotonicity) on edge-focused generated floats",
+    ),
     'C04': dict(
         text="Model-based stateful property testing: one rapid state machine per non-collapsing store kind generates histories over Add/AddWithCount/AddBin/bursts/MergeWith(any of 5 kinds)/Copy/Clear/Reweight/Encode+Decode/ToProto+MergeWithProto and compares, after every step, the complete public observation (emptiness, total, min/max index, ForEach, Bins(), KeyAtRank at every cumulative boundary +- half a quantum) bit-for-bit with the mathematical index->weight map; dyadic bounded weights make every float sum exact so no tolerance is needed. The layout hook counts structural events (array shift/grow, page creation, left extension, compaction) so that evidence shows they were exercised.",
         design_ref="DESIGN.md §2 C04, §1.1",
@@ -19,6 +25,18 @@ TEXTS = {
         design_ref="DESIGN.md §2 C05",
         note="Trusted: the fold model (history independence of folding is itself exercised: any dependence shows up as a mismatch). Sketch-level clause asserts accuracy only when both candidate order statistics are retained.",
         technique="stateful model-based property testing (rapid state machine) against fold(exact map, N); generated sketch-level accuracy cases",
+    ),
+    'C19': dict(
+        text="Generated-input round-trip and metamorphic search: every generated mapping is pushed through binary Encode/Decode, protobuf Marshal/Unmarshal/FromProto and the streaming IndexMappingBuilder; results must Equal the original in both directions, re-serialize to identical bytes and agree bitwise on Index/Value/LowerBound/accuracy/range at probe values and indexes; an independent parser must read the same kind/gamma/offset from the block; equality is checked for reflexivity, symmetry and discrimination (other kind, accuracy >= 0.1% apart, clearly different offsets).",
+        design_ref="DESIGN.md §2 C19",
+        note="Trusted: google.golang.org/protobuf, harness/refdec. Equality discrimination is asserted only for pairs at least 0.1% apart in accuracy (as the property states).",
+        technique="property-based round-trip and metamorphic testing (rapid) with an independent wire-format reader",
+    ),
+    'C20': dict(
+        text="Model-based stateful property testing of dataset.Dataset against a sorted-slice model: additions interleaved with lower/upper quantile, min, max, sum, count queries and merges; exact rational ranks; a permuted twin must answer identically.",
+        design_ref="DESIGN.md §2 C20",
+        note="Trusted: sort.Float64s for the model, Shewchuk exact summation for the reference sum. Both readings of floor(q*(n-1)) (exact / binary64) accepted.",
+        technique="stateful model-based property testing (rapid state machine) against a sorted multiset",
     ),
     'C18': dict(
         text="Generated-input search: seeded rapid generators of uint64/int64/float64 values (bit-length classes, 2^k+-d, non-finite, subnormal, +1-rounding) and random byte strings, checked against an independent reference codec written from the format documentation (byte-for-byte encodings, sizes, exact consumption with trailing bytes, EOF on every strict prefix without consuming), plus complete enumeration of all byte strings of length <= 2 per decoder and all 256 flags; thorough adds a coverage-guided native fuzz campaign. Exploration is the right level: the property is a for-all over bit patterns with an executable differential oracle.",
